@@ -97,8 +97,17 @@ func (e *Exec) cstr(v Value) string {
 	return s.S
 }
 
+func (e *Exec) cstrOK(v Value) string {
+	s, ok := v.(Str)
+	if !ok || !s.Concrete() {
+		return "\x00<symbolic>"
+	}
+	return s.S
+}
+
 // deepEq: reflect.DeepEqual lifted to symbolic values (result is a Bool term).
 func (e *Exec) deepEq(x, y Value, seen map[[2]*Obj]bool) *T {
+	x, y = e.res(x), e.res(y)
 	switch a := x.(type) {
 	case *T:
 		b, ok := y.(*T)
